@@ -122,6 +122,13 @@ def make_dist(rnd, mean_unit, n_units, family=None, safe=False):
     raise ValueError(fam)
 
 
+def _f_mix(rnd, x):
+    """number format for mixture specifiers: no leading-dot form -- Mixture strips '.' and '|' from both ends of the text, so
+    `.|.55|` is read as 55 (a parsing defect outside the claimed properties, C02 / C12; noted in DESIGN.md section 6)"""
+    s = _f(rnd, x).strip()
+    return "0" + s if s.startswith(".") else s
+
+
 def _f(rnd, x):
     x = float(x)
     forms = [repr(x), "%.6g" % x, repr(x)]
@@ -680,16 +687,16 @@ def gen_system(rnd, cfg=None, deterministic_mass=False, min_components=1):
         return Descriptors.HeavyAtomMolWt(m) if m is not None else 250.0
 
     sizes = [approx(t) for t, _ in comps]
-    members = rnd.choice([2, 4, 8, 15, 30])
+    members = rnd.choice([0.4, 2, 4, 8, 15, 30])  # 0.4: the very first member already exceeds the system mass
     total = max(sizes) * members
     form = rnd.choice(["abs", "abs", "pct", "sysarg"]) if n > 1 else rnd.choice(["abs", "abs", "sysarg"])
-    raw = [rnd.choice([1, 1, 2, 5, 9, 20]) for _ in range(n)]
+    raw = [rnd.choice([0.05, 1, 1, 2, 5, 9, 20]) for _ in range(n)]
     fr = [r / sum(raw) for r in raw]
     text = ""
     sysw = None
     if form == "abs":
         for (t, _), f in zip(comps, fr):
-            text += t + ".|%s|" % _f(rnd, round(total * f, 2))
+            text += t + ".|%s|" % _f_mix(rnd, round(total * f, 2))
         tags.add("mix:absolute")
     elif form == "pct":
         # n-1 percentages and one absolute mass (its percentage is inferred)
@@ -700,7 +707,7 @@ def gen_system(rnd, cfg=None, deterministic_mass=False, min_components=1):
             return gen_system(rnd, cfg, deterministic_mass, min_components)
         for i, (t, _) in enumerate(comps):
             if i == k_abs:
-                text += t + ".|%s|" % _f(rnd, round(total * pcts[i] / 100.0, 2))
+                text += t + ".|%s|" % _f_mix(rnd, round(total * pcts[i] / 100.0, 2))
             else:
                 text += t + ".|%s%%|" % repr(pcts[i])
         tags.add("mix:percent")
